@@ -209,6 +209,8 @@ def run(chk, facts, info):
     rule_label_fixup(chk, facts, P)
     rule_address_operands(chk, facts, P)
     rule_address_modulo(chk, facts, P)
+    from . import round8_small
+    round8_small.c10_r15(chk, facts, P)
     from . import pc_snapshot
     pc_snapshot.run(chk, facts, 'C10-R13', min_instances=100)
     carry_pair_rule(chk, facts, 'C10-R14')
